@@ -40,7 +40,7 @@ CANON = os.path.join(VERIF, "harness", "C12", "case_canon.json")
 # to BE the Op.step case (semantic comparison, Peg/TieSkel.lean); every other case is compared in canonical form (CANON)
 TIESKEL = ["JanetModel.Peg.TieSkel." + t for t in (
     "rule_if", "rule_ifnot", "rule_not", "rule_drop", "rule_only_tags", "rule_sub", "rule_accumulate", "rule_capture",
-    "rule_position", "rule_constant", "rule_group", "rule_nth", "rule_error", "rule_between", "rule_to_thru", "rule_til", "rule_choice", "rule_sequence", "rule_lenprefix")]
+    "rule_position", "rule_constant", "rule_group", "rule_nth", "rule_error", "rule_between", "rule_to_thru", "rule_til", "rule_choice", "rule_sequence", "rule_lenprefix", "rule_split")]
 ENTRIES = ("match", "find", "findall", "replace", "replaceall")
 
 
